@@ -15,7 +15,7 @@ use serde_json::json;
 pub static SPEC: PropSpec = PropSpec {
     id: "C04",
     level: "exploration",
-    rule: "inputs: corpus files, token/line/char mutations and splices of corpus files, token soups, targeted well-formed shapes aimed at post-parser panic sites, bounded deep nesting (<= 64) of every recursive construct, a generic-signature family (type parameter in 19 type-constructor positions of parameter and result x 8 instantiations), generated well-typed programs and generic-library programs; each is run through compile (+ Go pretty-printing and all 8 stage dumps on success) and typecheck_with_packages; an input is non-trivial when it has >= 1 non-error token and reaches beyond the lexer; distinct by content hash",
+    rule: "inputs: corpus files, token/line/char mutations and splices of corpus files, token soups, targeted well-formed shapes aimed at post-parser panic sites, bounded deep nesting (<= 64) of every recursive construct, a generic-signature family (type parameter in 19 type-constructor positions of parameter and result x 8 instantiations), generated well-typed programs and generic-library programs, soups of multi-line string pieces and every prefix of corpus files with multi-line strings; each is run through compile (+ Go pretty-printing and all 8 stage dumps on success) and typecheck_with_packages; an input is non-trivial when it has >= 1 non-error token and reaches beyond the lexer; distinct by content hash",
     eval_counter: "inputs",
     assumptions: &[
         "termination is bounded progress: 10 CPU-seconds and 3 GiB resident per input of <= 64 KiB; peers take milliseconds",
@@ -26,7 +26,7 @@ pub static SPEC: PropSpec = PropSpec {
     case_cpu_s: 10,
     shards: 0,
     run,
-    floors: &[("inputs", 5_000, 1_000_000), ("compile_ok", 100, 20_000), ("stage_typer_err", 100, 20_000), ("stage_compile_err", 10, 1_000), ("generic_shapes_instantiated", 15, 15), ("inputs_generated", 40, 4_000)],
+    floors: &[("inputs", 5_000, 1_000_000), ("compile_ok", 100, 20_000), ("stage_typer_err", 100, 20_000), ("stage_compile_err", 10, 1_000), ("generic_shapes_instantiated", 15, 15), ("inputs_generated", 40, 4_000), ("inputs_multiline_soup", 1_200, 40_000), ("inputs_multiline_prefix", 100, 100)],
     finish: None,
 };
 
@@ -441,6 +441,37 @@ fn run(ctx: &mut Ctx) {
                 print_program(&prog, PrintOpts::default())
             };
             ctx.case(&format!("generated/{}/{}", ctx.shard, i), |c| check_source(c, "generated", &src));
+        }
+    }
+    // multi-line string syntax: soups of marker / continuation / lone-backslash pieces, and every prefix of the corpus
+    // files that contain a multi-line string (what an editor hands over while the literal is being typed)
+    {
+        let nml = tier.pick(1_500u64, 60_000u64) / ctx.nshards as u64 + 1;
+        for i in 0..nml {
+            let mut rng = Rng::keyed(seed, "c04-ml", ctx.shard as u64, i);
+            let n = 1 + rng.below(8);
+            let mut s = String::new();
+            if rng.chance(1, 3) {
+                s.push_str("fn main() -> unit {\n    let s = ");
+            }
+            for _ in 0..n {
+                s.push_str(rng.pick(crate::props::c12::ML_PARTS));
+            }
+            ctx.case(&format!("multiline_soup/{}/{}", ctx.shard, i), |c| check_source(c, "multiline_soup", &s));
+        }
+        let mut k = 0u64;
+        for (_name, text) in corpus.iter().filter(|(_, t)| t.contains("\\\\") && t.len() < 4_000) {
+            for cut in 0..=text.len() {
+                if !text.is_char_boundary(cut) {
+                    continue;
+                }
+                k += 1;
+                if !ctx.mine(500_000 + k) {
+                    continue;
+                }
+                let s = text[..cut].to_string();
+                ctx.case(&format!("multiline_prefix/{}", k), |c| check_source(c, "multiline_prefix", &s));
+            }
         }
     }
     for (i, (id, text)) in util::known_witnesses("C04").iter().enumerate() {
